@@ -77,6 +77,7 @@ class Engine:
         self.bit_rewrites = 0
         self.fmt_terms: List[Any] = []      # terms rendered into message text (see fmt_token)
         self.known: Dict[int, bool] = {}    # ast id -> truth value already established on this path (syntactic)
+        self.memo: Dict[Any, Any] = {}      # per-exploration memo of solver-derived choices (keeps re-executions deterministic)
 
     # ------------------------------------------------------------------ solver plumbing
     def _check(self, *extra: Any) -> str:
@@ -165,7 +166,8 @@ class Engine:
             return False
         if self.pos < len(self.decisions):
             kind, d = self.decisions[self.pos]
-            assert kind == 'b', 'non-deterministic harness: decision kinds differ between re-executions'
+            if kind != 'b':
+                raise Inconclusive('non-deterministic re-execution (decision kinds differ)')
             self.pos += 1
             self._assume(cond if d else z3.Not(cond))
             if self.pos == len(self.decisions):
@@ -200,7 +202,8 @@ class Engine:
             return e.as_signed_long()
         if self.pos < len(self.decisions):
             kind, d = self.decisions[self.pos]
-            assert kind == 'c', 'non-deterministic harness: decision kinds differ between re-executions'
+            if kind != 'c':
+                raise Inconclusive('non-deterministic re-execution (decision kinds differ)')
             self.pos += 1
             self._assume(e == z3.BitVecVal(d, e.size()))
             if self.pos == len(self.decisions):
